@@ -41,6 +41,14 @@ register("C19",
          "Trusted: Coq kernel; gen_adjprog skeleton extractor (fail-closed) trusted to list every access to _adjacency/_adjacency_dirty; Model/Conc.v interleaving semantics (atomic line-level actions under the GIL); harness/sched.py. No axioms.",
          "Coq invariant proof over all schedules for the regenerated access skeleton; deterministic schedule replay on real threads", "DESIGN.md section 6/C19")
 
+register("C18",
+         "Machine-checked Coq theorems over histories of ANY length and any truncation function: a full refresh after any history yields the materialisation of the current base; merge equals the full rollup whenever all changes since the previous refresh fall inside the window and is idempotent; "
+         "an incremental re-run without new data leaves the table literally unchanged and in-order arrival gives the full rollup; C18_history lifts these to whole histories by induction (ghost state = base at the last refresh). "
+         "The CLI's incremental/merge modes are refuted by witnesses (known finding). Tied to the code by executing random histories through PreAggregation.refresh and the real CLI and comparing the rollup bag after every step with the model evaluated in Coq, "
+         "plus an SQL-level oracle independent of the model.",
+         "Trusted: Coq kernel; Model/Refresh.v is hand-written (modelled-not-verified, one dimension + sum + count standing for any decomposable rollup) and tied by differential testing; DuckDB and typer CliRunner as drivers; the API source statement (bucket-level watermark predicate) is the harness's choice. No axioms.",
+         "Coq induction over operation histories (pointwise bag algebra); correspondence on executed histories incl. the CLI", "DESIGN.md section 6/C18")
+
 PENDING = "check not built yet in this revision (see DESIGN.md section 10 build order)"
 
 
